@@ -82,7 +82,7 @@ func (b *Body) call(v ssa.Value, c *ssa.CallCommon, blk *ssa.BasicBlock, reach *
 	}
 	// `calls` clauses of the function under verification
 	b.callSiteClauses(key, c, sig, args, reach, st, pos)
-	if con == nil && b.nativeCall(v, key, c, args, blk, reach, st) {
+	if (con == nil || key == "reflect.DeepEqual") && b.nativeCall(v, key, c, args, blk, reach, st) {
 		return
 	}
 	switch {
@@ -276,11 +276,27 @@ func (b *Body) applyContract(v ssa.Value, con *FnContract, key string, sig *type
 		b.havocForCall(m, args, blk, st)
 	}
 	// results
+	var older []*T
+	if con.Fresh {
+		older = b.olderRefs(v)
+	}
 	res := b.callResults(v)
 	if con.Fresh {
+		// results of a `fresh` callee are new objects (when non-nil)
 		for _, r := range res {
 			if ft.sortOf(r.Type) == "Ref" {
-				ft.fact(Imp(reach, Not(Eq(r.T, L("nil")))))
+				for _, o := range older {
+					ft.fact(Or(Eq(r.T, L("nil")), Not(Eq(r.T, o))))
+				}
+			}
+		}
+	}
+	// a contract saying `result == <param>` (the callee returns one of its
+	// pointer arguments): the result designates the same address
+	if pn := aliasedParam(con); pn != "" && len(res) > 0 {
+		for i, n := range names {
+			if n == pn && i < len(args) && args[i].Addr != nil {
+				res[0].Addr = args[i].Addr
 			}
 		}
 	}
@@ -454,6 +470,7 @@ func (b *Body) inline(v ssa.Value, fn *ssa.Function, clos *Closure, args []*Val,
 	n := ft.count("inline")
 	sub := ft.newBody(fn, fmt.Sprintf("%si%d.", b.prefix, n), b.loopsOf(blk), b.depth+1)
 	sub.parent = b
+	sub.callBlk = blk
 	for i, p := range fn.Params {
 		if i < len(args) {
 			sub.vals[p] = args[i]
@@ -620,16 +637,48 @@ func (b *Body) builtin(v ssa.Value, c *ssa.CallCommon, name string, blk *ssa.Bas
 	case "append":
 		b.appendBuiltin(v, c, blk, reach, st)
 	case "copy":
-		dst := arg(0)
+		dst, src := arg(0), arg(1)
 		x := b.declVal(v)
 		ft.fact(A(">=", x.T, Int(0)))
-		if ad := ft.addrOf(dst); ad != nil && len(ad.Path) == 0 {
-			ft.setRegion(st, ad.Region, Sto(ft.region(st, ad.Region), ad.Base, ft.fresh("copy", ad.RootSort)))
-			b.recordWrite(blk, ad.Region, c.Args[0])
-			if ad.RootSort == "Bytes" {
-				ft.fact(Eq(A("blen", Sel(ft.region(st, "H.Bytes"), ad.Base)), A("blen", Sel(ft.region(b.preState(st), "H.Bytes"), ad.Base))))
-			}
+		ad := ft.addrOf(dst)
+		if ad == nil || len(ad.Path) != 0 {
+			ft.abstraction("copy: destination not addressable, contents arbitrary")
+			break
 		}
+		pre := b.preState(st)
+		_ = pre
+		if ad.RootSort == "Bytes" {
+			oldb := Sel(ft.region(st, "H.Bytes"), ad.Base)
+			var srcb *T
+			if _, isStr := types.Unalias(src.Type).Underlying().(*types.Basic); isStr {
+				srcb = A("bytesOf", src.T)
+			} else {
+				srcb = Sel(ft.region(st, "H.Bytes"), src.T)
+			}
+			dl, sl := A("blen", oldb), A("blen", srcb)
+			ft.fact(Eq(x.T, Ite(A("<=", dl, sl), dl, sl)))
+			newb := Ite(Eq(x.T, dl), A("bsub", srcb, Int(0), x.T), A("bcat", A("bsub", srcb, Int(0), x.T), A("bsub", oldb, x.T, dl)))
+			nb := ft.fresh("copy", "Bytes")
+			ft.fact(Eq(nb, newb))
+			ft.fact(Eq(A("blen", nb), dl))
+			ft.setRegion(st, ad.Region, Sto(ft.region(st, ad.Region), ad.Base, nb))
+			b.recordWrite(blk, ad.Region, c.Args[0])
+			break
+		}
+		if strings.HasPrefix(ad.Region, "HS.") {
+			oldc := Sel(ft.region(st, ad.Region), ad.Base)
+			srcc := Sel(ft.region(st, ad.Region), src.T)
+			dl, sl := A("rlen", dst.T), A("rlen", src.T)
+			ft.fact(Eq(x.T, Ite(A("<=", dl, sl), dl, sl)))
+			nc := ft.fresh("copy", ad.RootSort)
+			q := fmt.Sprintf("j!%d", ft.count("qv"))
+			ft.fact(Forall([][2]string{{q, "Int"}}, Eq(Sel(nc, L(q)), Ite(And(A("<=", Int(0), L(q)), A("<", L(q), x.T)), Sel(srcc, L(q)), Sel(oldc, L(q)))), []*T{Sel(nc, L(q))}))
+			ft.setRegion(st, ad.Region, Sto(ft.region(st, ad.Region), ad.Base, nc))
+			b.recordWrite(blk, ad.Region, c.Args[0])
+			break
+		}
+		ft.setRegion(st, ad.Region, Sto(ft.region(st, ad.Region), ad.Base, ft.fresh("copy", ad.RootSort)))
+		b.recordWrite(blk, ad.Region, c.Args[0])
 		ft.abstraction("copy: destination contents arbitrary")
 	case "delete":
 		m, k := arg(0), arg(1)
@@ -767,4 +816,35 @@ func (b *Body) boundary(where string, reach *T, st State, pos token.Pos) {
 		name += fmt.Sprintf("@%s#%d", where, n)
 		ft.oblige(&Obligation{Name: name, Kind: "boundary", Tags: ft.clauseTags(cl), Guard: reach, Goal: g, Src: cl.Src, Pos: ft.pos(pos)})
 	}
+}
+
+// aliasedParam finds an ensures conjunct `result == p` / `r0 == p`.
+func aliasedParam(con *FnContract) string {
+	var find func(e Expr) string
+	find = func(e Expr) string {
+		b, ok := e.(*EBinary)
+		if !ok {
+			return ""
+		}
+		if b.Op == "&&" {
+			if r := find(b.X); r != "" {
+				return r
+			}
+			return find(b.Y)
+		}
+		if b.Op == "==" {
+			x, ok1 := b.X.(*EIdent)
+			y, ok2 := b.Y.(*EIdent)
+			if ok1 && ok2 && (x.Name == "result" || x.Name == "r0") {
+				return y.Name
+			}
+		}
+		return ""
+	}
+	for _, c := range con.Ensures {
+		if r := find(c.Expr); r != "" {
+			return r
+		}
+	}
+	return ""
 }
